@@ -160,7 +160,10 @@ func clsShared(msg string, pos token.Pos) cls {
 
 type immut struct {
 	c            *Ctx
-	writesParam  map[*ssa.Function]map[int]bool
+	// writesParam[fn][i]: the set of dynamic types under which fn writes through
+	// its parameter i ("*" = always; for interface-typed parameters the concrete
+	// types whose methods do the writing).
+	writesParam  map[*ssa.Function]map[int]map[string]bool
 	writesFields map[*ssa.Function]map[string]bool
 	closureSite  map[*ssa.Function]*ssa.MakeClosure
 	paramIdx     map[*ssa.Parameter]int
@@ -176,6 +179,7 @@ type writeSite struct {
 	target ssa.Value // address (store) or slice/pointer value (others)
 	argIdx int
 	callee *ssa.Function
+	dyn    map[string]bool // dynamic types of the actual under which the callee writes it ("*" = any)
 	// results
 	relevant bool
 	props    []string
@@ -188,7 +192,7 @@ func (c *Ctx) immutEngine() *immut {
 	if c.im != nil {
 		return c.im
 	}
-	im := &immut{c: c, writesParam: map[*ssa.Function]map[int]bool{}, writesFields: map[*ssa.Function]map[string]bool{},
+	im := &immut{c: c, writesParam: map[*ssa.Function]map[int]map[string]bool{}, writesFields: map[*ssa.Function]map[string]bool{},
 		closureSite: map[*ssa.Function]*ssa.MakeClosure{}, paramIdx: map[*ssa.Parameter]int{}}
 	c.im = im
 	for _, fn := range c.Funcs {
@@ -1104,13 +1108,20 @@ func (im *immut) enumerate(fn *ssa.Function) []*writeSite {
 				}
 			}
 			args := callArgs(x)
-			done := map[int]bool{}
 			for _, t := range targets {
-				for pi := range im.writesParam[t] {
-					if pi < len(args) && !done[pi] {
-						done[pi] = true
-						out = append(out, &writeSite{fn: fn, in: x, kind: "call:" + im.c.fnName(t), target: args[pi], argIdx: pi, callee: t})
+				for pi, ts := range im.writesParam[t] {
+					if pi >= len(args) || pi >= len(t.Params) {
+						continue
 					}
+					dyn := ts
+					_, actualIface := args[pi].Type().Underlying().(*types.Interface)
+					_, formalIface := t.Params[pi].Type().Underlying().(*types.Interface)
+					if actualIface && !formalIface {
+						// interface value dispatched to a concrete method: it writes only when the
+						// dynamic type is that method's receiver/parameter type
+						dyn = map[string]bool{dynTypeKey(t.Params[pi].Type()): true}
+					}
+					out = append(out, &writeSite{fn: fn, in: x, kind: "call:" + im.c.fnName(t), target: args[pi], argIdx: pi, callee: t, dyn: dyn})
 				}
 			}
 		}
@@ -1131,7 +1142,14 @@ func (im *immut) decide(w *writeSite) {
 	}
 	tgt := w.target
 	if mi, ok := tgt.(*ssa.MakeInterface); ok {
+		// the dynamic type is known here: the callee writes only for the types in dyn
+		if w.dyn != nil && !w.dyn["*"] && !w.dyn[dynTypeKey(mi.X.Type())] {
+			w.exempt = "dynamic type " + dynTypeKey(mi.X.Type()) + " is not one the callee writes through"
+			w.relevant = false
+			return
+		}
 		tgt = mi.X
+		w.dyn = nil
 	}
 	root, through := im.peel(tgt)
 	// An address that is a phi of cell addresses (`nodep := &txn.root` /
@@ -1163,6 +1181,18 @@ func (im *immut) decide(w *writeSite) {
 		}
 	}
 	w.relevant, w.region, w.props = im.relevance(root, through, w.kind != "store")
+	// An interface-typed actual (receiver of an invoke, or an interface argument):
+	// what is written is decided by the concrete callee's parameter type.
+	if !w.relevant && w.callee != nil {
+		if _, isIface := tgt.Type().Underlying().(*types.Interface); isIface {
+			for d := range w.dyn {
+				k := strings.TrimPrefix(d, "*")
+				if props, ok := persistentTypes[k]; ok && strings.HasPrefix(d, "*") {
+					w.relevant, w.region, w.props = true, k, props
+				}
+			}
+		}
+	}
 	// Classification is needed for every write (also irrelevant ones) to build
 	// parameter summaries: the relevance is decided at the call site.
 	w.c = im.classify(tgt, w.fn, w.in.Block())
@@ -1209,11 +1239,23 @@ func (im *immut) run() {
 				// literals are classified as shared above).
 				for p := range w.c.params {
 					if im.writesParam[fn] == nil {
-						im.writesParam[fn] = map[int]bool{}
+						im.writesParam[fn] = map[int]map[string]bool{}
 					}
-					if !im.writesParam[fn][p] {
-						im.writesParam[fn][p] = true
-						changed = true
+					if im.writesParam[fn][p] == nil {
+						im.writesParam[fn][p] = map[string]bool{}
+					}
+					// through an interface-typed parameter only the recorded dynamic types matter
+					add := map[string]bool{"*": true}
+					if p < len(fn.Params) {
+						if _, isIface := fn.Params[p].Type().Underlying().(*types.Interface); isIface && w.dyn != nil {
+							add = w.dyn
+						}
+					}
+					for d := range add {
+						if !im.writesParam[fn][p][d] {
+							im.writesParam[fn][p][d] = true
+							changed = true
+						}
 					}
 				}
 			}
@@ -1408,4 +1450,17 @@ func ruleScratchFields(c *Ctx, r *Reporter) {
 			}
 		}
 	}
+}
+
+// dynTypeKey names a concrete type as it can sit in an interface: "*pkg.T" or "pkg.T".
+func dynTypeKey(t types.Type) string {
+	star := ""
+	if _, ok := types.Unalias(t).(*types.Pointer); ok {
+		star = "*"
+	}
+	n := namedOf(t)
+	if n == nil || n.Obj().Pkg() == nil {
+		return star + t.String()
+	}
+	return star + shortPkg(n.Obj().Pkg().Path()) + "." + n.Obj().Name()
 }
